@@ -57,6 +57,9 @@ func genC15Pod(t *rapid.T, l string) C15Pod {
 	if name != "c-1" { // most pods have owners: only those are cached
 		p.Owner = name[:1]
 	}
+	if rapid.IntRange(0, 3).Draw(t, l+"noname") == 0 {
+		p.PortName = "" // a pod that does not call its port "http": rules on that name do not resolve on it
+	}
 	// pods are never placed in "default" by name; a quarter of them are inserted through the API WITHOUT a namespace and
 	// live in "default" that way (policies and Namespace objects do name "default")
 	if p.Ns == "default" {
@@ -122,6 +125,10 @@ func genC15(t *rapid.T) *C15Case {
 				if rapid.Bool().Draw(t, l+"bport") {
 					r.HasPorts = true
 					r.Ports = []APort{{Kind: "number", Proto: "TCP", Port: 80}}
+					if rapid.Bool().Draw(t, l+"bnamed") {
+						// a port name (the pods of this model call 80 or 81 "http", one pod has no ports... none here) before a number
+						r.Ports = []APort{{Kind: "named", Name: rapid.SampledFrom([]string{"http", "dns"}).Draw(t, l+"bname")}, {Kind: "number", Proto: "TCP", Port: rapid.SampledFrom([]int{80, 81}).Draw(t, l+"bnum")}}
+					}
 				}
 				a = AdminPol{Subject: all}
 				if rapid.Bool().Draw(t, l+"bdir") {
@@ -332,7 +339,7 @@ func checkC15(c *C15Case, st *VStats) *VFailure {
 		if p.Owner != "" && !p.OwnLabels {
 			for _, k := range sortedKeysOf(m.pods) {
 				if q := m.pods[k]; k != p.key() && q.Ns == p.Ns && q.Owner == p.Owner {
-					p.Labels, p.Port = q.Labels, q.Port
+					p.Labels, p.Port, p.PortName = q.Labels, q.Port, q.PortName
 				}
 			}
 		}
@@ -341,7 +348,7 @@ func checkC15(c *C15Case, st *VStats) *VFailure {
 			// cache by owner and label set on that assumption)
 			for _, k := range sortedKeysOf(m.pods) {
 				if q := m.pods[k]; k != p.key() && q.Ns == p.Ns && q.Owner == p.Owner && fmt.Sprint(q.Labels) == fmt.Sprint(p.Labels) {
-					p.Port = q.Port
+					p.Port, p.PortName = q.Port, q.PortName
 				}
 			}
 		}
@@ -492,7 +499,7 @@ func checkC15(c *C15Case, st *VStats) *VFailure {
 				if p.Owner != "" {
 					for k, q := range trial.pods {
 						if k != p.key() && q.Ns == p.Ns && q.Owner == p.Owner {
-							p.Labels, p.Port = q.Labels, q.Port
+							p.Labels, p.Port, p.PortName = q.Labels, q.Port, q.PortName
 						}
 					}
 				}
